@@ -5,9 +5,11 @@ A map is `Native("kmap", ((key, cell), ...))` in insertion order; the value of a
 engine's values (`key_eq`); a symbolic equality forks. Trusted base (std / indexmap contracts): insert replaces the value of an
 equal key in place or appends; entry().or_insert() returns the existing value or inserts the default; get finds the equal key;
 iteration and clone follow insertion order; Mutex::lock returns the protected value."""
+import re
 import z3
 from .sym import *
 from .models import m_identity
+from .prog import norm_callee
 
 _cells = [0]
 
@@ -152,16 +154,39 @@ def m_or_insert_with(eng, ctx, f, path, args, dty):
 
     def miss(c):
         from .models_reg import run_closure
-        v = run_closure(eng, c, args[1], [])
+        if isinstance(args[1], FnItem):
+            if not re.search(r"(HashMap|IndexMap)::new$|::default$", norm_callee(args[1].path)):
+                raise Unsupported(f"or_insert_with({args[1]})")
+            v = kmap()
+        else:
+            v = run_closure(eng, c, args[1], [])
         cell = new_cell(c, v)
         eng.store_ptr(c, mp, kmap(m.data + ((key, cell),)))
         return Ptr(("static", cell))
     return _find(eng, ctx, m, key, lambda c, i, cell: Ptr(("static", cell)), miss)
 
 
+def deep_copy(ctx, v):
+    """copy of a value in which nested maps get cells of their own"""
+    if isinstance(v, Native) and v.kind == "kmap":
+        return kmap(tuple((k, new_cell(ctx, deep_copy(ctx, ctx.statics[cell]))) for k, cell in v.data))
+    return clone(v)
+
+
+def m_or_default_map(eng, ctx, f, path, args, dty):
+    ent = args[0]
+    mp, key = ent.data
+    m = the_map(eng, ctx, mp)
+
+    def miss(c):
+        cell = new_cell(c, kmap())
+        eng.store_ptr(c, mp, kmap(m.data + ((key, cell),)))
+        return Ptr(("static", cell))
+    return _find(eng, ctx, m, key, lambda c, i, cell: Ptr(("static", cell)), miss)
+
+
 def m_clone(eng, ctx, f, path, args, dty):
-    m = the_map(eng, ctx, args[0])
-    return kmap(tuple((k, new_cell(ctx, clone(ctx.statics[cell]))) for k, cell in m.data))
+    return deep_copy(ctx, the_map(eng, ctx, args[0]))
 
 
 def m_len(eng, ctx, f, path, args, dty):
@@ -207,6 +232,12 @@ COLL = {
     r"^(IndexMap|HashMap|hashbrown::HashMap|hashbrown::map::HashMap)::entry$": m_entry,
     r"Entry::or_insert$": m_or_insert,
     r"Entry::or_insert_with$": m_or_insert_with,
+    r"Entry::or_default$": m_or_default_map,
+    r"^(IndexMap|HashMap|hashbrown::HashMap|hashbrown::map::HashMap)::new$": lambda *a: kmap(),
+    r"^(IndexMap|HashMap|hashbrown::HashMap|hashbrown::map::HashMap)::get_mut$": m_get,
+    r"^(IndexMap|HashMap|hashbrown::HashMap|hashbrown::map::HashMap)::is_empty$": lambda eng, ctx, f, path, args, dty: z3.BoolVal(len(the_map(eng, ctx, args[0]).data) == 0),
+    r"^std::sync::RwLock::(read|write)$|^RwLock::(read|write)$": m_lock,
+    r"RwLock(Read|Write)Guard as Deref(Mut)?>::deref(_mut)?$": m_guard_deref,
     r"^<(IndexMap|HashMap) as Clone>::clone$": m_clone,
     r"^(IndexMap|HashMap|hashbrown::HashMap|hashbrown::map::HashMap)::len$": m_len,
     r"^<&?(mut )?(IndexMap|HashMap|hashbrown::map::HashMap) as IntoIterator>::into_iter$|^(IndexMap|HashMap)::(iter|iter_mut)$": m_into_iter,
